@@ -48,7 +48,7 @@ def plan(tier: str, seed: int) -> list[dict]:
     i = 0
     for _ in range(14 * mult):
         cases.append({"k": "vhdx-diff", "i": (i := i + 1), "depth": rng.choice([2, 2, 3, 4]), "ss": rng.choice([512, 512, 4096]),
-                      "cfg": rng.choice(["relative", "relative", "absolute", "subdir"]), "mode": rng.choice(["path", "str", "fh"]), "weight": 6})
+                      "cfg": rng.choice(["relative", "relative", "absolute", "subdir", "both-decoy", "nested-decoy"]), "mode": rng.choice(["path", "str", "fh"]), "weight": 6})
     for _ in range(5 * mult):
         cases.append({"k": "vhdx-diff", "i": (i := i + 1), "depth": rng.choice([2, 3]), "ss": rng.choice([512, 512, 4096]) if tier != "quick" else 512,
                       "cfg": "relative", "mode": "path", "chunks": True, "weight": 8})
